@@ -81,6 +81,9 @@ class Ctx:
         self.solver = z3.Solver()
         self.solver.set('timeout', feas_timeout_ms)
         self.n_feas_queries = 0
+        self.decided = {}
+        self.model = None
+        self._last_model = None
         self.feas_unknown = 0
         self.notes = []
 
@@ -113,6 +116,7 @@ class Ctx:
     def add_axiom(self, t):
         self.axioms.append(t)
         self.solver.add(t)
+        self.model = None
 
     def assume(self, t, text=None):
         if isinstance(t, SymB):
@@ -123,6 +127,7 @@ class Ctx:
             return
         self.assumptions.append((t, text or str(t)))
         self.solver.add(t)
+        self.model = None
 
     def get_pi(self):
         if self.pi is None:
@@ -154,14 +159,34 @@ class Ctx:
             return True
         if z3.is_false(t):
             return False
+        # the same comparison evaluated again on this path: reuse, no solver call
+        tid = t.get_id()
+        if tid in self.decided:
+            return self.decided[tid]
+        if z3.is_not(t) and t.arg(0).get_id() in self.decided:
+            return not self.decided[t.arg(0).get_id()]
         idx = len(self.decisions)
         if idx >= self.max_decisions:
             raise PathBudget()
         if idx < len(self.schedule):
             choice = self.schedule[idx]
+            self.model = None
         else:
-            can_t = self._feasible(t)
-            can_f = self._feasible(z3.Not(t))
+            # the current model (if still valid) already witnesses one side
+            witnessed = None
+            if self.model is not None:
+                try:
+                    v = self.model.eval(t, model_completion=True)
+                    if z3.is_true(v):
+                        witnessed = True
+                    elif z3.is_false(v):
+                        witnessed = False
+                except z3.Z3Exception:
+                    witnessed = None
+            can_t = True if witnessed is True else self._feasible(t)
+            m_t = self._last_model if witnessed is not True else self.model
+            can_f = True if witnessed is False else self._feasible(z3.Not(t))
+            m_f = self._last_model if witnessed is not False else self.model
             if can_t and can_f:
                 choice = True
                 self.pending.append(self.decisions + [False])
@@ -171,7 +196,9 @@ class Ctx:
                 choice = False
             else:
                 raise PathInfeasible()
+            self.model = m_t if choice else m_f
         self.decisions.append(choice)
+        self.decided[tid] = choice
         c = t if choice else z3.Not(t)
         self.decision_terms.append(c)
         self.path.append(c)
@@ -180,11 +207,18 @@ class Ctx:
 
     def _feasible(self, t):
         self.n_feas_queries += 1
+        self._last_model = None
         r = self.solver.check(t)
         if r == z3.unknown:
             self.feas_unknown += 1
             return True
-        return r == z3.sat
+        if r == z3.sat:
+            try:
+                self._last_model = self.solver.model()
+            except z3.Z3Exception:
+                self._last_model = None
+            return True
+        return False
 
     def all_constraints(self):
         return list(self.axioms) + [a for a, _ in self.assumptions] + list(self.path)
@@ -603,6 +637,7 @@ def _assume_defined(t, text):
         raise PathInfeasible()
     c.assumptions.append((t, text))
     c.solver.add(t)
+    c.model = None
 
 
 def _real_pow(base, e):
